@@ -36,6 +36,18 @@ PROPS = {
         assumptions=["validity of a checkpoint is stated as: the stacks at checkpoint time are prefixes of the current stacks (implied by the ghost-identity definition the harness' reference uses)"],
         not_yet_proved=[],
     ),
+    "C15": dict(
+        runs=runs([("greeneq", "release")],
+                  [("greeneq", "release"), ("greeneq", "lasso"), ("greeneq", "debug")]),
+        rule="cases = random tree T built four ways over one interner (builder, builder again through the shared cache, builder through a fresh cache "
+             "after `recache`, bottom-up through GreenNode::new along a random spine) plus a single-edit mutant (one kind, one text byte, one child "
+             "added/removed/swapped), under hash masks {none, 3, 0}; all pairs compared with ==, hashed through a recording hasher and DefaultHasher; "
+             "sub-elements compared across routes; 4 random op mixes (next/next_back/nth/nth_back/len/size_hint + count/last/fold/rfold) per tree on "
+             "children(); non-trivial = a pair with known reference trees was compared or an iterator over >= 2 children was driven; distinct = distinct op text",
+        assumptions=["equality is stated over one interner whose keys are a bijection (C10); tokens come from builders (GreenToken has no public constructor)",
+                     "slice::Iter (std) is trusted for next/next_back/nth/nth_back/len/size_hint/count; the three methods the crate codes itself (last, fold, rfold) are modelled as coded"],
+        not_yet_proved=[],
+    ),
     "C20": dict(
         runs=runs([("faults", "release")],
                   [("faults", "release"), ("faults", "lasso"), ("faults", "debug")]),
